@@ -499,7 +499,7 @@ func caseCoq(h *History, ex *Exec) string {
 }
 
 func runCFL(o *hx.Opts, rnd *hx.Rand, res *hx.Result) {
-	n := o.Count(150, 5000)
+	n := o.Count(150, 2000)
 	var file *hx.CoqFile
 	nfile := 0
 	const shard = 80
